@@ -385,9 +385,9 @@ theorem reachable_present (w : World) (o : Opts) (roots : List Spec) (imports : 
 
 /-- the followed targets are read off the recorded dependencies: a kept code or type side of a
 dependency that is not a skipped dynamic one -/
-theorem mem_modTargets_js (o : Opts) (mt : MediaType) (deps : List BDep) (td : Option Res) (d : BDep) (s : Spec) (rng : Nat)
+theorem mem_modTargets_js (o : Opts) (mt : MediaType) (deps : List BDep) (td sm : Option Res) (d : BDep) (s : Spec) (rng : Nat)
     (hd : d ∈ deps) (hs : (d.dyn && o.skipDynamicDeps) = false) (hc : d.code = .ok s rng ∨ d.type = .ok s rng) :
-    s ∈ modTargets o (.js mt deps td) := by
+    s ∈ modTargets o (.js mt deps td sm) := by
   simp only [modTargets, List.mem_append, List.mem_flatMap]
   left
   refine ⟨d, hd, ?_⟩
@@ -400,8 +400,8 @@ example : ∃ out, build demoWorld demoOpts [0] [] 50 = some out ∧
     Reach demoOpts out [0] [] 2 ∧ Present out 2 := by
   refine ⟨(build demoWorld demoOpts [0] [] 50).get (by decide), by simp, ?_, ?_⟩
   · refine Reach.redirect (a := 1) (Reach.dep (f := 0) (m := .js .TypeScript
-      [{ text := 0, code := .ok 1 0, type := .none, dyn := false, attr := none, isAsset := false, sourcePhase := none }] none)
+      [{ text := 0, code := .ok 1 0, type := .none, dyn := false, attr := none, isAsset := false, sourcePhase := none }] none none)
       (Reach.root (by simp)) (by decide) (by decide)) (by decide)
-  · exact Or.inl ⟨.js .JavaScript [] none, by decide⟩
+  · exact Or.inl ⟨.js .JavaScript [] none none, by decide⟩
 
 end DG.C01
